@@ -108,6 +108,10 @@ def run(rep, tier):
     rf = rep.rule("R01.f", "initial registers: r10 = stack top, r1 by the mbuff/mem/0 cascade, others 0; stack is 512 zero bytes", floor=1)
     ok, found = _initial_state(cx, im)
     rep.ob(rf, "init", ok, "register file initialiser and r1 selection", expected="[0 x10, stack+len]; r1 = mbuff if non-empty else mem if non-empty else 0", found=found)
+    # what the program finds in the metadata buffer at entry is part of "the value the ISA prescribes for
+    # this input": the interpreter-side context rules of C09 are obligations here too
+    import props.c09 as c09
+    c09.run(rep, tier, parts=("interp", "ctor"))
     rep.trust("rustc front end / typed THIR", "core integer primitives (wrapping_*, to_le/to_be, read/write_unaligned)",
               "isaref.py: the ISA reference written from the specification")
     rep.assume("little-endian target", "results that depend on never-written registers/stack or raw addresses are outside the claim")
